@@ -5,19 +5,8 @@ import json
 from pathlib import Path
 
 V = Path(__file__).resolve().parent.parent
-CLAIMED = {
-    "C05": dict(
-        text="Kernel-checked theorems about the executable model Evo.Sync of sync.py (after the F8 repair): every pair within "
-             "max_diff and nearest, completeness for uncontested poses, contested counterpart goes to the closest, each pose used "
-             "once, increasing order on both sides, both length orderings/offset signs, refusal iff no match; F8 counterexample "
-             "for the pinned code. Model tied to /repo on every run by exact comparison of index lists (matching_time_indices, "
-             "associate_trajectories) on an exact dyadic grid stream and a margin-filtered random stream.",
-        design="4/C05",
-        note="Trusted: Lean kernel, standard axioms only, harness (generator/oracle/exact rationals), compiled driver. Float rounding of "
-             "stamp+offset/differences is not modelled: random cases within 8 ulp of a threshold are skipped; 'inputs not modified' is "
-             "checked by snapshots (frame condition), not proved.",
-        technique="Lean 4 proof (induction over stamp lists) + differential correspondence model↔evo"),
-}
+# one JSON file per claimed property: harness/props/Cnn.json with keys text, design, note, technique
+CLAIMED = {f.stem: json.loads(f.read_text()) for f in sorted((V / "harness" / "props").glob("C*.json"))}
 PENDING_REASON = "check not built yet (work in progress in this session; see DESIGN.md section 4 for the planned Lean model and theorems)"
 
 props = [json.loads(l) for l in (V / "properties.jsonl").read_text().splitlines() if l.strip()]
